@@ -182,6 +182,10 @@ def run_engine(ck, tier, seed, pids, with_passloop=False):
     js += corpus.jobs(maxlines=200, chunk=7, dirs=[0, 1, 3])
     js += corpus.random_jobs(n=150 if q else 3000, seed=seed, dirs=[0, 1])
     js += corpus.random_jobs(n=60 if q else 1000, seed=seed + 1, dirs=[3], ppm=12, opts=6)
+    # fonts with application-supplied ("hinted") advances, both ways of making them
+    for hinted in (1, 2):
+        js += [dict(j, hinted=hinted, ppm=15, id=j["id"] + ":h%d" % hinted) for j in corpus.jobs(maxlines=40 if q else 400, dirs=[0, 1], with_fonttests=True)]
+        js += [dict(j, hinted=hinted, ppm=9.5, id=j["id"] + ":h%d" % hinted) for j in corpus.random_jobs(n=40 if q else 600, seed=seed + 2, dirs=[0, 1])]
     jf = os.path.join(tmp, "corpus_jobs.ndjson")
     open(jf, "w").write("\n".join(json.dumps(j) for j in js) + "\n")
     h = vlib.run_harness(exe, ["shape", jf], timeout=6000)
